@@ -9,13 +9,16 @@ content, every query (any WHERE condition, select list, ORDER BY keys, OFFSET, L
 namespace Mkdb.Exec
 open Mkdb.Sql Mkdb.Exec.SelectP
 
-/-- **C05.select_correct**: the result of a single-table SELECT without aggregates is
-exactly: the rows of the table that satisfy the WHERE condition (in insertion order),
+/-- **C05.select_correct**: the result of a single-table SELECT without aggregates and without
+GROUP BY is exactly: the rows of the table that satisfy the WHERE condition (in insertion order),
 projected by the select list, sorted by the resolved ORDER BY keys, then OFFSET rows
-dropped and at most LIMIT rows kept — nothing else happens, in that order. -/
+dropped and at most LIMIT rows kept — nothing else happens, in that order.
+(`hgb : q.groupBy = []`: a GROUP BY groups even when the select list holds no aggregate -
+`SELECT a FROM t GROUP BY a` is one row per distinct `a`, which is C07's
+`C07_group_by_without_aggregate`, not this theorem.) -/
 theorem C05_select_correct {fetch : Bytes → Option Table} {q : Select} {t : TableName}
     {rows : List Row} {hdr : List Field}
-    (hfrom : q.from_ = some (.table t)) (hagg : hasAggr q.list = false)
+    (hfrom : q.from_ = some (.table t)) (hagg : hasAggr q.list = false) (hgb : q.groupBy = [])
     (h : evaluateSelect fetch q = .ok (rows, hdr)) :
     ∃ tbl src fields filtered projected keys,
       fetch t.name = some tbl ∧ src = tbl.rows ∧ fields = tableFields t tbl ∧
@@ -27,7 +30,7 @@ theorem C05_select_correct {fetch : Bytes → Option Table} {q : Select} {t : Ta
       resolveSortKeys q.orderBy hdr = .ok keys ∧
       (∀ a ∈ projected, ∀ b ∈ projected, KeyComparable keys a b) ∧
       rows = cut q.lim (sortRows keys projected) :=
-  select_single_table hfrom hagg h
+  select_single_table hfrom hagg hgb h
 
 /-- **C05.sort**: the sorting step returns a permutation of its input that is sorted by
 the keys (ASC/DESC per key), for every key list and every row list. -/
@@ -46,10 +49,12 @@ theorem C05_cmp_strict_weak (keys : List (Nat × Bool)) (S : List Row)
   rowLess_strict_weak keys S hS
 
 /-- **C05.limit_offset**: the final rows are `take LIMIT (drop OFFSET sorted)` of a sorted
-permutation of the projected rows, and are themselves sorted. -/
+permutation of the projected rows, and are themselves sorted.  (Without aggregates and without
+GROUP BY, `hgb : q.groupBy = []`, as in `C05_select_correct`: with a GROUP BY the sorted rows are
+the grouped rows, not the projected ones.) -/
 theorem C05_limit_offset {fetch : Bytes → Option Table} {q : Select} {t : TableName}
     {rows : List Row} {hdr : List Field}
-    (hfrom : q.from_ = some (.table t)) (hagg : hasAggr q.list = false)
+    (hfrom : q.from_ = some (.table t)) (hagg : hasAggr q.list = false) (hgb : q.groupBy = [])
     (h : evaluateSelect fetch q = .ok (rows, hdr)) :
     ∃ keys fields filtered projected sorted,
       projectColumns q.list fields filtered = .ok (projected, hdr) ∧
@@ -61,7 +66,7 @@ theorem C05_limit_offset {fetch : Bytes → Option Table} {q : Select} {t : Tabl
               let d := sorted.drop off
               if q.lim.limitActive then d.take q.lim.limit.toNat else d) ∧
       Spec.sortedBy keys rows = true :=
-  limit_offset_spec hfrom hagg h
+  limit_offset_spec hfrom hagg hgb h
 
 /-- **C05.where**: the WHERE step keeps exactly the rows on which the condition holds, in order. -/
 theorem C05_where {c : Cond} {fields : List Field} {rows out : List Row}
